@@ -700,6 +700,7 @@ func doBig(d bigDesc) {
 		scalar = t.Transform
 	}
 	var out []vector3.Float64
+	inputTouched := -1
 	crash := guard(func() {
 		if d.Workers > 0 {
 			defer runtime.GOMAXPROCS(runtime.GOMAXPROCS(d.Workers))
@@ -715,22 +716,41 @@ func doBig(d bigDesc) {
 			}
 			return o
 		}
+		// the caller's array / the receiver mesh must come back unchanged (TransformInPlace is the one entry point that
+		// is specified to overwrite its argument)
+		arg := append([]vector3.Float64{}, in...)
+		var m modeling.Mesh
+		if strings.HasPrefix(d.Entry, "mesh.") {
+			m = mesh()
+		}
 		switch d.Entry {
 		case "mesh.Rotate":
-			out = pos(mesh().Rotate(q))
+			out = pos(m.Rotate(q))
 		case "mesh.Translate":
-			out = pos(mesh().Translate(toV(d.P)))
+			out = pos(m.Translate(toV(d.P)))
 		case "mesh.Scale":
-			out = pos(mesh().Scale(toV(d.S)))
+			out = pos(m.Scale(toV(d.S)))
 		case "mesh.ApplyTRS":
-			out = pos(mesh().ApplyTRS(t))
+			out = pos(m.ApplyTRS(t))
 		case "trs.TransformArray":
-			out = t.TransformArray(append([]vector3.Float64{}, in...))
+			out = t.TransformArray(arg)
 		case "trs.TransformInPlace":
 			out = append([]vector3.Float64{}, in...)
 			t.TransformInPlace(out)
 		case "quat.RotateArray":
-			out = q.RotateArray(append([]vector3.Float64{}, in...))
+			out = q.RotateArray(arg)
+		}
+		if strings.HasPrefix(d.Entry, "mesh.") {
+			arg = pos(m)
+		}
+		for i := range in {
+			if i >= len(arg) || arg[i] != in[i] {
+				inputTouched = i
+				break
+			}
+		}
+		if len(arg) != len(in) && inputTouched < 0 {
+			inputTouched = len(in)
 		}
 	})
 	mism, first := 0, -1
@@ -769,6 +789,10 @@ func doBig(d bigDesc) {
 	}
 	entry := map[string]int{"trs.TransformArray": 1, "trs.TransformInPlace": 2, "quat.RotateArray": 3}[d.Entry]
 	coq := ""
+	if ok && inputTouched >= 0 {
+		crash = fmt.Sprintf("%s on %d points changed its input (the caller's array / the receiver mesh) at index %d", d.Entry, d.N, inputTouched)
+		ok = false
+	}
 	if ok && (mism != 0 || len(out) != d.N) {
 		crash = fmt.Sprintf("%s on %d points: %d results, %d of them differ from the scalar entry point (first at index %d)", d.Entry, d.N, len(out), mism, first)
 		ok = false
